@@ -242,6 +242,10 @@ def main(args: Any) -> int:
         from vf import c20_transform
 
         c20_transform.run(rep, args.tier)
+    if not getattr(args, "only", None) or "K6" in args.only:
+        from vf import c20_jumps
+
+        c20_jumps.run(rep, args.tier)
     return rep.finish()
 
 
